@@ -35,9 +35,28 @@ class RecSpecs:
         self.defs = {}
 
     def flat(self, v):
+        """argument terms of an uninterpreted application; small fixed arrays are expanded to
+        their elements so that equal Go values give equal arguments (SMT arrays are extensional
+        over all indices, Go arrays only over 0..N-1)"""
         types = self.cx.types
         if v.t == MATHINT:
             return [v.term]
+        return self.canon(v)
+
+    def canon(self, v):
+        from . import values as V
+        types = self.cx.types
+        k = types.kind(v.t)
+        if k == 'struct':
+            out = []
+            for f in types.fields(v.t):
+                out += self.canon(v.sub(('.' + f['name'],), f['type']))
+            return out
+        if k == 'array' and types.desc(v.t)['len'] <= 64:
+            out = []
+            for i in range(types.desc(v.t)['len']):
+                out += self.canon(V.index_array_val(types, v, z3.IntVal(i)))
+            return out
         return [v.lv[p] for (p, s, role) in types.leaves(v.t)]
 
     def leaves_of(self, tk):
@@ -60,7 +79,7 @@ class RecSpecs:
                 lv[p] = f(*args)
             v = Val(rt, lv)
             return v
-        d = self.define(ev, sf, env, rt)
+        d = self.define(ev, sf, env, rt, [a.sort() for a in args])
         if len(d) == 4:   # inside the function's own definition
             return Val(rt, {(): d[0](*args)})
         f, keys, sorts = d
@@ -75,7 +94,7 @@ class RecSpecs:
             ev.st.assume(term == body.term)
         return Val(rt, {(): term})
 
-    def define(self, ev, sf, env, rt):
+    def define(self, ev, sf, env, rt, argsorts):
         """heap footprint and uninterpreted symbol of a recursive spec function (fuel-1 scheme:
         the function is uninterpreted; each application outside a quantifier gets one instance of
         its defining equation)"""
@@ -104,14 +123,13 @@ class RecSpecs:
                 fenv[pn] = Val(a.t, lv)
         cx = self.cx
         heap1 = FormalHeap(types, 'R_' + sf.name)
-        ph = ops.uf('placeholder_' + sf.name, *([x.sort() for x in formals] + [rsort]))
         hs = State.__new__(State)
         hs.__dict__.update(ev.st.__dict__)
         hs.heap = heap1
         hs.assumptions = []
         hs.sink = None
         sub = Ev(cx, hs, dict(fenv), sf.pkg, None, sf.imports, None, True)
-        self.defs[k] = (lambda *a: ph(*a[:len(formals)]), heap1.keys, heap1.sorts, True)
+        self.defs[k] = (lambda *a: z3.FreshConst(rsort, 'ph'), heap1.keys, heap1.sorts, True)
         try:
             sub.ev(sf.body)
         finally:
@@ -119,7 +137,7 @@ class RecSpecs:
         keys = list(heap1.keys)
         sorts = dict(heap1.sorts)
         f = ops.uf('spec_%s_%s' % (sf.pkg.rsplit('/', 1)[-1], sf.name),
-                   *([x.sort() for x in formals] + [z3.ArraySort(I, sort_of(sorts[key])) for key in keys] + [rsort]))
+                   *(list(argsorts) + [z3.ArraySort(I, sort_of(sorts[key])) for key in keys] + [rsort]))
         d = (f, keys, sorts)
         self.defs[k] = d
         return d
